@@ -47,6 +47,8 @@ FastaBigShapes == <<
   FaRec("c000000",   "two words","ACGTNacgt",    3, "CRLF"),
   FaRec("d@000000+", "@q +r",    "g",            1, "LF"),
   FaRec("e000000",   ">",        "cattag",       2, "CRLF"),
-  FaRec("g000000",   "d +",      "ggatccaagcttggatccaagctt", 3, "LF")
+  FaRec("g000000",   "d +",      "ggatccaagcttggatccaagctt", 3, "LF"),
+  (* a long record (5 040 bases) written on a single line *)
+  FaRec("l000000",   "long",     Rep("acgtgcatgactagctagcatgcatgcaacgttgca", 140), 1, "LF")
 >>
 =============================================================================
